@@ -89,8 +89,19 @@ class C20Plan(RunPlan):
                     n = max(len(p) for p in program["threads"])
                     for ei in range(n):
                         cand = dict(program, threads=[p[:ei] + p[ei + 1:] for p in program["threads"]])
-                        if any(cand["threads"]) and all(len(p) for p in cand["threads"]) and test(cand, schedule):
+                        if not (any(cand["threads"]) and all(len(p) for p in cand["threads"])):
+                            continue
+                        if test(cand, schedule):
                             program = cand
+                            changed = True
+                            break
+                        # the recorded schedule no longer lines up with the shorter program: let the
+                        # seeded scheduler run it and, if the violation persists, adopt its schedule
+                        evals += 1
+                        r = t.request({"engine": "T", "prop": "C20", "program": cand, "want_ops": True,
+                                       "timeout": 180})
+                        if any(x["signature"] == sig for x in r.get("violations", [])):
+                            program, schedule = cand, r.get("schedule") or schedule
                             changed = True
                             break
                 if len(program["threads"]) > 2:
